@@ -654,7 +654,8 @@ def fixed_specs():
     s.append(['ctor', 'seq_l', [], '', 'set'])
     for p in ([0, -5, 30.0], [0, 0, -30.0], [-0.0, 5, 3], [12, 59, 60], [12, 59.5, 59.99999999999999], [359, 59, 60.0],
               [-359, 59, 60.0], [10, 120, 7200], [10.5, 30.5, 30.5], [23, 26, 44.82, -1], [23, 26, 44.82, 1, 5],
-              [-23, -26, -44.82], [23.44694444, 0], [1e15, 1e15, 1e15], [0, 0, 1296000]):
+              [-23, -26, -44.82], [23.44694444, 0], [1e15, 1e15, 1e15], [0, 0, 1296000],
+              [359, 59, 59.99999999999999], [-359, 59, 59.99999999999999], [359, 59.99999999999999], [719, 59, 59.9999999999]):
         for kind in ('args', 'seq_t', 'seq_l'):
             s.append(['ctor', kind, p, '', 'new'])
         s.append(['forms', p, ''])
@@ -723,7 +724,7 @@ def gen_op_spec(rng, hot):
         a = rng.choice([0.0, -0.0])
     if base == 'mod' and rng.random() < 0.3:
         b = rng.choice([1, 60, 360, 90, -50, 7]) if bk == 'int' else rng.choice([1.0, 60.0, 360.0, 0.1, -50.0, 7.5, 1e-3]) if bk == 'flt' else rng.choice([1.0, 60.0, 90.0, -50.0, 0.1])
-    if name == 'rmod' and bk != 'ang' and abs(b) >= 360 and rng.random() < 0.97:
+    if name == 'rmod' and bk != 'ang' and abs(b) >= 360 and rng.random() < 0.99:
         # |number| >= 360 is the listed finding C03-rmod-reduces-left-operand: sampled rarely
         b = rng.randint(-359, 359) if bk == 'int' else rng.uniform(-360.0, 360.0)
     if hot and rng.random() < 0.05 and bk != 'ang':
@@ -750,7 +751,7 @@ def gen_specs(ctx, count):
                 yield ['ctor', kind, x if kind == 'num' else [x], 'rad', rng.choice(['new', 'set', 'set_radians']) if kind == 'num' else 'new']
             else:
                 # |h| >= 24 is the listed finding C03-ra-not-reduced: sampled, but rarely, so that it cannot crowd out others
-                h = x if rng.random() < 0.02 else rng.choice([rng.uniform(-24, 24), step(24.0, -1), step(-24.0, 1), rng.randint(-23, 23),
+                h = x if rng.random() < 0.004 else rng.choice([rng.uniform(-24, 24), step(24.0, -1), step(-24.0, 1), rng.randint(-23, 23),
                                                               gen_angle_value(rng) / 15.0])
                 yield ['ctor', 'num', h, 'ra', rng.choice(['new', 'set', 'set_ra'])]
         elif r < 0.40:
@@ -759,7 +760,7 @@ def gen_specs(ctx, count):
             if k < 0.45:
                 yield ['ctor', rng.choice(['args', 'seq_t', 'seq_l']), p, rng.choice(['', '', '', 'rad']), rng.choice(['new', 'new', 'set'])]
             elif k < 0.6:
-                if rng.random() < 0.97:
+                if rng.random() < 0.994:
                     p = [rng.choice([rng.randint(0, 23), rng.uniform(0, 23)]), rng.choice([rng.randint(0, 59), rng.uniform(0, 59)]),
                          rng.choice([rng.randint(0, 59), rng.uniform(0, 59.9)])][:max(2, min(3, len(p)))]
                     if rng.random() < 0.4:
@@ -827,6 +828,14 @@ def known_match(finding, failure):
     for idx, val in (finding.get('match') or {}).items():
         i = int(idx)
         if i >= len(inp) or inp[i] != val:
+            return False
+    for idx, val in (finding.get('not_match') or {}).items():
+        i = int(idx)
+        if i < len(inp) and inp[i] == val:
+            return False
+    if 'detail_values' in finding:
+        det = failure.get('detail')
+        if not isinstance(det, dict) or det.get('value') not in finding['detail_values']:
             return False
     for idx, bound in (finding.get('abs_ge') or {}).items():
         i = int(idx)
